@@ -168,7 +168,7 @@ func c02Targets(rng *Rng, g *GenTree, args []string) wrConfig {
 func runC02(ctx *Ctx) *Result {
 	res := &Result{Rule: "one case = one run of the real binary on a generated tree with one option set; per tree 3 option sets without -F (drawn from {default,-f,-s,-e,-g,-q,-Wall -Call and combinations} x {--only p} x targets {-r ., packages, package as cwd, category, single files incl. executable ones}) and then one with -F; non-trivial = a run in which at least one fix site fired (an AUTOFIX line was printed, or in default mode a -f run of the same tree prints one); each run is judged by comparing full snapshots (entry set, type, mode, content) before and after"}
 	rng := NewRng(ctx.Seed)
-	ntrees := 150
+	ntrees := 260
 	if ctx.Tier == "thorough" {
 		ntrees = 5000
 	}
